@@ -38,6 +38,10 @@ CHECKS = {
          "For constructed situations over 6 CIDs, Status(c), the unfiltered listing and listings under every single status and random unions are taken from the real stateless tracker; the two views must fall in the same class, that class must be the one the constructed facts dictate, and each filtered listing must equal the unfiltered one restricted to the filter.",
          "pin_error and unexpectedly_unpinned count as the same class ('an error status'). Where the daemon holds a CID in another mode than recorded only agreement is demanded. The cluster-wide view (peer map) is checked in the networked case family when present in the evidence keys ('global/').",
          "DESIGN.md §4 C06"),
+ "C11": ("exploration", "runtime request/response monitor: real rest.API over HTTP with a recording RPC service behind it; route x method sweeps, option fuzzing, malformed inputs, credential sweeps, multipart adds, and the bundled client library against scripted answers",
+         "Every documented route and a set of unknown paths are requested with every HTTP method, with valid and invalid CIDs/paths/peer ids/bodies and every pin option valid and invalid (alone and combined), with and without configured credentials (missing, wrong user, wrong password, right). The recorder must show zero RPCs for malformed or unauthenticated requests and exactly the route's RPC with the generator's CID/path/options otherwise (max_depth consistent with mode); every body must be a single JSON document; each client-library method must deliver its arguments unchanged and return the scripted answer.",
+         "The route table is data in the harness (the router is unexported); a route added by a change is still covered by the unknown-path and credential sweeps. libp2p-http transport not exercised (QUIC stub). Unknown 'mode' values and unparsable peer ids in user-allocations are accepted by design and not generated as invalid. Status-filter unions are not sent through the client (their textual form is not one-to-one).",
+         "DESIGN.md §4 C11"),
 }
 
 ALL = ["C%02d" % i for i in range(1, 19)]
